@@ -82,7 +82,11 @@ func BuildComments(path string, fileFilters func(path string) bool) []*astitodo.
 		displayName := filepath.Base(file)
 		fmt.Println("parse java call: " + displayName)
 
-		is, _ := antlr.NewFileStream(file)
+		is, err := antlr.NewFileStream(file)
+		if err != nil {
+			// not a readable regular file, e.g. a directory whose name ends with a selected extension
+			continue
+		}
 		lexer := NewCommentLexer(is)
 
 		for _, token := range lexer.GetAllTokens() {
